@@ -162,6 +162,7 @@ type w5Script struct {
 	Op     string `json:"op"`      // subscribe unsubscribe disconnect refresh unsubscribe_all
 	Opt    string `json:"opt"`     // focal option
 	Target string `json:"target"`  // user client labels allusers
+	LF     int    `json:"lf,omitempty"` // label filter shape for target "labels": 0 eq, 1 in, 2 nin, 3 and(neq,ex), 4 or(eq,eq), 5 not(eq)
 	PreSub int    `json:"pre_sub"` // channels both connections are subscribed to before the op
 	Hist   int    `json:"history"` // publications in the channel history before the op
 	CSR    bool   `json:"client_side_refresh"`
@@ -228,6 +229,9 @@ func w5Gen(c *simrt.Choice, prop, tier string) any {
 		cb := combos[c.Index%len(combos)]
 		sc.Op, sc.Opt = cb.op, cb.opt
 		sc.Target = []string{"user", "client", "labels", "allusers"}[(c.Index/len(combos))%4]
+		if sc.Target == "labels" {
+			sc.LF = (c.Index / (4 * len(combos))) % 6
+		}
 		switch sc.Op {
 		case "subscribe":
 			sc.Hist = c.Intn(4)
@@ -244,6 +248,9 @@ func w5Gen(c *simrt.Choice, prop, tier string) any {
 		return sc
 	}
 	sc.Target = []string{"user", "client", "labels", "allusers"}[c.Intn(4)]
+	if sc.Target == "labels" {
+		sc.LF = c.Intn(6)
+	}
 	return sc
 }
 
@@ -460,7 +467,13 @@ func (w *w5World) runOp() {
 	user := "u"
 	x := w.connect(0, 0, user, labels)
 	y := w.connect(1, 1, user, labels)
-	// bystanders that must not be affected by client/label targeting
+	// bystanders of the same user with another label, one per node: whatever a call does
+	// to them (nothing under client/label targeting) must be the same locally and remotely
+	var xb, yb *w1SimClient
+	if sc.Target == "labels" {
+		xb = w.connect(0, 2, user, map[string]string{"tier": "bronze"})
+		yb = w.connect(1, 3, user, map[string]string{"tier": "bronze"})
+	}
 	s.Sleep(50 * time.Millisecond)
 	if !x.connected || !y.connected {
 		s.Violate(w.prop, "harness", "connect failed", "x=%v y=%v", x.connected, y.connected)
@@ -470,6 +483,10 @@ func (w *w5World) runOp() {
 	for _, ch := range pre {
 		x.runOp(w1Op{K: "sub", Ch: ch})
 		y.runOp(w1Op{K: "sub", Ch: ch})
+		if xb != nil && xb.connected && yb.connected {
+			xb.runOp(w1Op{K: "sub", Ch: ch})
+			yb.runOp(w1Op{K: "sub", Ch: ch})
+		}
 	}
 	opCh := w5Chan
 	if sc.Opt == "RecoveryModeCache" || sc.Opt == "AutoCacheRecover" {
@@ -548,7 +565,23 @@ func (w *w5World) runOp() {
 			refOpts = append(refOpts, WithRefreshExpireAt(exp), WithRefreshInfo([]byte(`{"ri":1}`)))
 		}
 	}
-	lf := &FilterNode{Op: "", Key: "tier", Cmp: "eq", Val: "gold"}
+	// every shape matches the target connections (tier=gold) and excludes the bystanders
+	// (tier=bronze); the remote node must evaluate exactly the same filter
+	var lf *FilterNode
+	switch sc.LF {
+	case 1:
+		lf = &FilterNode{Key: "tier", Cmp: "in", Vals: []string{"gold", "silver"}}
+	case 2:
+		lf = &FilterNode{Key: "tier", Cmp: "nin", Vals: []string{"bronze", "iron"}}
+	case 3:
+		lf = &FilterNode{Op: "and", Nodes: []*FilterNode{{Key: "tier", Cmp: "neq", Val: "bronze"}, {Key: "tier", Cmp: "ex"}}}
+	case 4:
+		lf = &FilterNode{Op: "or", Nodes: []*FilterNode{{Key: "tier", Cmp: "eq", Val: "gold"}, {Key: "tier", Cmp: "eq", Val: "platinum"}}}
+	case 5:
+		lf = &FilterNode{Op: "not", Nodes: []*FilterNode{{Key: "tier", Cmp: "eq", Val: "bronze"}}}
+	default:
+		lf = &FilterNode{Op: "", Key: "tier", Cmp: "eq", Val: "gold"}
+	}
 	call := func(target *w1SimClient) error {
 		u := user
 		so, uo, do, ro := subOpts, unsubOpts, discOpts, refOpts
@@ -628,6 +661,26 @@ func (w *w5World) runOp() {
 	}
 	if w.prop != "C27" {
 		return
+	}
+	if xb != nil && xb.connected && yb.connected {
+		bx := w.effect(a, xb, from, opCh)
+		by := w.effect(b, yb, from, opCh)
+		s.Probe("c27_bystanders_compared")
+		var bd []string
+		for k, v := range bx {
+			if by[k] != v {
+				bd = append(bd, fmt.Sprintf("%s: local=%q remote=%q", k, v, by[k]))
+			}
+		}
+		for k, v := range by {
+			if _, ok := bx[k]; !ok {
+				bd = append(bd, fmt.Sprintf("%s: local=\"\" remote=%q", k, v))
+			}
+		}
+		if len(bd) > 0 {
+			sort.Strings(bd)
+			s.Violate("C27", "local-remote-differ", fmt.Sprintf("%s with label filter shape %d: connections the filter excludes are treated differently on the remote node", sc.Op, sc.LF), "%s option %s: bystander (tier=bronze) local vs remote: %s", sc.Op, sc.Opt, strings.Join(bd, "; "))
+		}
 	}
 	var keys []string
 	for k := range ex {
